@@ -392,10 +392,11 @@ class Builder(object):
                 # library's canonical placement is not assumed: put mandatory sections where legality needs them
                 order.append(m)
         order = present + order
-        if not legal_order(order):
+        if not legal_order(order) and not self.sizes.get('keep_order'):
             order = [s for s in SECTIONS if s in order]
-        # The generators keep two known triggers out of the way so that they cannot mask anything else (both are
-        # exercised by dedicated probes instead): a PARAM section that is the last one of the main file.
+        # The generators keep one known trigger out of the way so that it cannot mask anything else (it is exercised
+        # by dedicated probes instead): a PARAM section that is the last one of the main file, whose reader
+        # consumes the ENDCY / ENDFI line.
         excluded = set(self.sizes.get('main_excluded', ()))
         main = [s for s in order if s not in excluded]
         if main and main[-1] == 'PARAM':
